@@ -229,6 +229,7 @@ func a2lPart(rounds int) {
 	pipeToolPart("addr2line", a2lScript, rounds)
 	pipeToolPart("llvm-symbolizer", llvmScript, rounds)
 	dyingToolPart()
+	firstLookupPart(rounds)
 }
 
 const llvmScript = `#!/bin/sh
@@ -258,6 +259,53 @@ while read t f a; do
   echo "{\"Address\":\"$a\",\"ModuleName\":\"$f\",\"Symbol\":[{\"Line\":7,\"Column\":0,\"FunctionName\":\"s$x\",\"FileName\":\"src.c\",\"StartLine\":0}]}"
 done
 `
+
+// the lazily computed load base of an ObjFile: the FIRST lookups, made by several goroutines at once on a fresh ObjFile
+// of a shared object loaded far from its link address, all wait for the one base computation and translate with its
+// result (Shared.tla's once-protocol: nobody reads the value before the writer has finished)
+func firstLookupPart(rounds int) {
+	dir, err := os.MkdirTemp("", "c20-first-")
+	if err != nil {
+		run.Infra(err.Error())
+		return
+	}
+	defer os.RemoveAll(dir)
+	var b bytes.Buffer
+	h := elf.Header64{Type: uint16(elf.ET_DYN), Machine: uint16(elf.EM_X86_64), Version: 1, Phoff: 64, Ehsize: 64, Phentsize: 56, Phnum: 1, Shentsize: 64}
+	copy(h.Ident[:], []byte{0x7f, 'E', 'L', 'F', byte(elf.ELFCLASS64), byte(elf.ELFDATA2LSB), 1})
+	binary.Write(&b, binary.LittleEndian, h)
+	binary.Write(&b, binary.LittleEndian, elf.Prog64{Type: uint32(elf.PT_LOAD), Flags: uint32(elf.PF_R | elf.PF_X), Off: 0, Vaddr: 0, Filesz: 4096, Memsz: 65536, Align: 4096})
+	exe := filepath.Join(dir, "lib.so")
+	os.WriteFile(exe, append(b.Bytes(), make([]byte, 4096-b.Len())...), 0o755)
+	const bias = 0x7f0000000000
+	for round := 0; round < rounds; round++ {
+		bu := &binutils.Binutils{}
+		bu.SetTools("nm:" + dir) // nothing there: the nm-backed object, no external tool is run
+		f, err := bu.Open(exe, bias, bias+0x10000, 0, "")
+		if err != nil {
+			run.Infra("first-lookup part: " + err.Error())
+			return
+		}
+		start := make(chan struct{})
+		var wg sync.WaitGroup
+		for g := 0; g < 8; g++ {
+			wg.Add(1)
+			go func(g int) {
+				defer wg.Done()
+				<-start
+				q := uint64(0x2468 + g*16)
+				got, err := f.ObjAddr(bias + q)
+				if err != nil || got != q {
+					run.Violate("binutils", "first-lookup-wrong-address", fmt.Sprintf("8 goroutines made the first lookups on a fresh ObjFile (load bias %#x) at once: ObjAddr(%#x) = %#x, %v; alone it is %#x", uint64(bias), uint64(bias)+q, got, err, q), nil, nil)
+				}
+			}(g)
+		}
+		close(start)
+		wg.Wait()
+		f.Close()
+		run.Count(fmt.Sprintf("first-lookup|%d", round%4))
+	}
+}
 
 func dyingToolPart() {
 	for _, t := range []struct{ tool, script string }{{"addr2line", dyingA2l}, {"llvm-symbolizer", dyingLLVM}} {
